@@ -1,0 +1,74 @@
+//go:build verif
+
+// Contracts for package dtls (comment-only; read by /verif/vc).
+package dtls
+
+// DTLS 1.3 key update: the next write generation is the successor of the current one and
+// the epoch never wraps.
+
+//@ func validateNextWriteGeneration
+//@ ensures nil-args: (current == nil || next == nil) ==> result != nil
+//@ ensures no-wrap: result == nil ==> current.Epoch < 65535
+//@ ensures current-epoch: result == nil ==> current.Epoch == localEpoch
+//@ ensures epoch-successor: result == nil ==> next.Epoch == current.Epoch + 1 && next.Epoch > current.Epoch
+//@ ensures generation-successor: result == nil ==> next.Generation == current.Generation + 1
+//@ ensures frame: current != nil && next != nil ==> current.Epoch == old(current.Epoch) && next.Epoch == old(next.Epoch)
+//@ end
+
+// Record sequence numbers (RFC 6347 4.1): per-epoch counters live in the version state's common
+// block. S12(c) is the DTLS 1.2 state object, LSN(c) its per-epoch counter slice.
+
+//@ define S12(c) c.state.(*dtlsstate.State12)
+//@ define LSN(c) S12(c).Common.LocalSequenceNumber
+//@ define S13(c) c.state.(*dtlsstate.State13)
+//@ define is12(c) typeIs(c.state, "*github.com/pion/dtls/v3/internal/state.State12")
+//@ define is13(c) typeIs(c.state, "*github.com/pion/dtls/v3/internal/state.State13")
+// wfState: the version state object exists and has its common block (established by newConn / Activate12 / Activate13).
+//@ define wfState(c) (is12(c) || is13(c)) && nonNilPayload(c.state) && (is12(c) ==> S12(c).Common != nil) && (is13(c) ==> S13(c).Common != nil)
+// wfConn: fields set once by newConn and never nil afterwards.
+//@ define wfConn(c) wfState(c) && c.log != nil && c.closed != nil && c.fragmentBuffer != nil && c.handshakeCache != nil && c.nextConn != nil
+//@ define has12(c) typeIs(c.state, "*github.com/pion/dtls/v3/internal/state.State12") && S12(c) != nil && S12(c).Common != nil
+
+//@ func Conn.nextLocalSequenceNumber
+//@ requires state12: has12(c)
+//@ ensures no-wrap: result1 == nil ==> result0 <= 0x0000FFFFFFFFFFFF
+//@ ensures allocated-is-counter: result1 == nil && int(epoch) < len(old(LSN(c))) ==> result0 == old(LSN(c)[epoch])
+//@ ensures first-use-is-zero: result1 == nil && int(epoch) >= len(old(LSN(c))) ==> result0 == 0
+//@ ensures counter-advances: result1 == nil ==> int(epoch) < len(LSN(c)) && LSN(c)[epoch] == result0 + 1
+//@ ensures overflow-error: int(epoch) < len(old(LSN(c))) && old(LSN(c)[epoch]) > 0x0000FFFFFFFFFFFF ==> result1 != nil
+//@ ensures others-unchanged: forall(0, len(old(LSN(c))), func(e int) bool { return e != int(epoch) ==> LSN(c)[e] == old(LSN(c)[e]) })
+//@ ensures never-shrinks: len(LSN(c)) >= len(old(LSN(c)))
+//@ ensures state-kept: sameRef(c.state, old(c.state)) && S12(c).Common == old(S12(c).Common)
+//@ loop #1: same-common: common == S12(c).Common && common != nil && sameRef(c.state, old(c.state)) && S12(c).Common == old(S12(c).Common)
+//@ loop #1: grows: len(common.LocalSequenceNumber) >= len(old(LSN(c)))
+//@ loop #1: prefix-kept: forall(0, len(old(LSN(c))), func(e int) bool { return common.LocalSequenceNumber[e] == old(LSN(c)[e]) })
+//@ loop #1: new-are-zero: forall(len(old(LSN(c))), len(common.LocalSequenceNumber), func(e int) bool { return common.LocalSequenceNumber[e] == 0 })
+//@ end
+
+// Emission of handshake records (DTLS 1.2 path): every fragment gets its own freshly allocated
+// sequence number, and the header that is marshalled and handed to the cipher suite carries it.
+
+//@ assume-pure Conn.paddingLengthGenerator
+
+//@ func Conn.processProtectedHandshakePacket
+//@ noinline
+//@ end
+
+//@ func Conn.processProtectedPacket
+//@ noinline
+//@ end
+
+//@ func Conn.fragmentHandshake
+//@ noinline
+//@ end
+
+//@ func Conn.processHandshakePacket
+//@ watch Conn.nextLocalSequenceNumber CipherSuite.Encrypt
+//@ requires state12: has12(c)
+//@ requires args: pkt != nil && pkt.Record != nil && dtlsHandshake != nil
+//@ requires callbacks: c.paddingLengthGenerator != nil
+//@ requires suite: pkt.ShouldEncrypt ==> S12(c).Common.CipherSuite != nil
+//@ loop rangeindex: state-kept: has12(c) && pkt.Record != nil && pkt.Record == old(pkt.Record) && pkt.ShouldEncrypt == old(pkt.ShouldEncrypt) && common == S12(c).Common && (pkt.ShouldEncrypt ==> S12(c).Common.CipherSuite != nil)
+//@ loop rangeindex: header-seq-is-allocated: ncalls("Conn.nextLocalSequenceNumber") > 0 ==> pkt.Record.Header.SequenceNumber == retU64("Conn.nextLocalSequenceNumber", 0)
+//@ loop rangeindex: encrypt-sees-allocated: called("CipherSuite.Encrypt") ==> argAs("CipherSuite.Encrypt", 1, *pkt.Record).Header.SequenceNumber == retU64("Conn.nextLocalSequenceNumber", 0)
+//@ end
